@@ -446,6 +446,10 @@ func (u *Unmarshaler) processAnonymousFieldOptional(fieldType reflect.Type, valu
 		_, hasValue := getValue(m, fieldKey)
 		if hasValue {
 			if !filled {
+				if !settableOrAllocated(fieldType, value) {
+					return errValueNotSettable
+				}
+
 				filled = true
 				maybeNewValue(fieldType, value)
 				indirectValue = reflect.Indirect(value)
@@ -471,6 +475,10 @@ func (u *Unmarshaler) processAnonymousFieldOptional(fieldType reflect.Type, valu
 
 func (u *Unmarshaler) processAnonymousFieldRequired(fieldType reflect.Type, value reflect.Value,
 	m valuerWithParent, fullName string) error {
+	if !settableOrAllocated(fieldType, value) {
+		return errValueNotSettable
+	}
+
 	maybeNewValue(fieldType, value)
 	derefedFieldType := Deref(fieldType)
 	indirectValue := reflect.Indirect(value)
@@ -490,7 +498,8 @@ func (u *Unmarshaler) processField(field reflect.StructField, value reflect.Valu
 		return nil
 	}
 
-	if field.Anonymous {
+	// 只有内嵌的结构体（或其指针）才按匿名字段展开；内嵌的非结构体类型（如 type Level string）按具名字段处理
+	if field.Anonymous && Deref(field.Type).Kind() == reflect.Struct {
 		return u.processAnonymousField(field, value, m, fullName)
 	}
 
@@ -854,6 +863,12 @@ func createValuer(v valuerWithParent, opts *fieldOptionsWithContext) valuerWithP
 		current: v,
 		parent:  v.Parent(),
 	}
+}
+
+// settableOrAllocated 报告内嵌的指针字段能否展开：已分配，或可以通过反射分配
+// （内嵌的未导出类型指针无法通过反射赋值，encoding/json 对此同样报错）。
+func settableOrAllocated(fieldType reflect.Type, value reflect.Value) bool {
+	return fieldType.Kind() != reflect.Ptr || !value.IsNil() || value.CanSet()
 }
 
 // derefContainer 用于指向切片/字典的指针字段：返回其所指类型及（必要时新建的）所指值，
